@@ -74,7 +74,7 @@ CHECK_DEADLOCK FALSE
 
 def run_pool(ctx):
     pid = ctx.pid
-    core.build_harness(ctx)
+    core.build_harness(ctx, "vh")
     ctx.level = "model_checking"
     ctx.assumptions += [
         "the stand-in private-batch circuit (free public inputs, real Plonky2 proofs and verifier) exercises the same "
